@@ -742,13 +742,16 @@ class BaseModel(ModelInterface):
         """
         if (dataset := BaseModel._get_dataset(data)) is None:
             return
+        algorithm = BaseModel._get_algorithm(
+            algorithm, algorithm_settings, algorithm_settings_path, **kwargs
+        )
         if not self.is_initialized:
+            if algorithm is not None:
+                # the initialization may draw random numbers (`initialization_method="random"`):
+                # the seed of the algorithm, otherwise only set in `run`, has to cover it as well
+                algorithm._initialize_seed(algorithm.seed)
             self.initialize(dataset)
-        if (
-            algorithm := BaseModel._get_algorithm(
-                algorithm, algorithm_settings, algorithm_settings_path, **kwargs
-            )
-        ) is None:
+        if algorithm is None:
             return
         algorithm.run(self, dataset)
 
